@@ -44,16 +44,35 @@ ROUND2 = {
  "c20-5": ("C20", "stroke-width is only written when it differs from 1.0", "reify=True and a source width times the transform scale equal to exactly 1.0: the copied source attribute survives", "caught from the start"),
  "c20-6": ("C20", "the use-to-g branch recurses without the inverse viewport transform", "a use element together with a non-identity viewBox/viewport", "caught from the start"),
 }
+
+ROUND3 = {
+ "c09-7": ("C09", "Path.arc() takes any string end point: 'z' goes to the closing point, anything else through Point(text)", "an arc whose end point is an inline close written upper-case ('A 5,5 0 0 1 Z'): IndexError out of parse", "caught by one run in 60000 at first; inline closes are now generated in either case and listed among the fragments"),
+ "c09-8": ("C09", "the lexer returns int for whole-number tokens", "a number written as 309..4300 plain digits: the retained int cannot become a float, d()/bbox()/length() raise OverflowError (in arcs the parse itself)", "missed at first (no such literals; huge values skipped the follow-up operations); caught after adding extreme literals and judging an exact int like any real number"),
+ "c10-7": ("C10", "Color.parse memoised in a class-level table keyed by the blank-stripped lower-case text", "a malformed near-spelling ('#ff 0000') parsed before the first well-formed use of that colour in the process; every later well-formed sibling is painted black; an in-process reference is poisoned alike", "missed at first; caught after the reference parse was given a pristine instance of the library and colour faults became near-spellings of a run-unique colour that a later sibling states well-formed"),
+ "c10-8": ("C10", "the expansion of each use target is memoised per document by id, ignoring the cycle guard's context", "a chain A -> B with an offending use B -> A: A's expansion inside the cycle is truncated and replayed for a later valid use of A, which loses B's content", "missed at first (my exempt set covered every element a use inside the offender reaches, anywhere); caught after the exemption became positional (only nodes under the offender in the returned tree) and chain cycles with one offending element were generated"),
+ "c16-7": ("C16", "subpath()/count_subpaths() keep a window table that Path.reverse() mirrors instead of dropping", "a subpath lookup, then a whole-path reverse that has to insert a move, then a reversal through subpath(i)", "caught from the start"),
+ "c16-8": ("C16", "Path.reverse() skips the move of a re-attached move-less subpath when the path built so far already ends there", "a move-less subpath after a close, another subpath after it whose move goes exactly to the fragment's end point", "caught from the start"),
+ "c17-7": ("C17", "the last Move is memoised for z_point; extend() does not refresh it", "Path(a), then += Path(b) with its own move, then += a string that closes before any new move", "caught from the start (path-object appends inside string histories had just been added)"),
+ "c17-8": ("C17", "Path.parse() memoised in a class-level table keyed by (text, current point, subpath start) - not the smooth control", "the same piece text beginning with T/t/S/s appended earlier in the process to a path ending at the same point with a different last control", "missed at first; caught after adding twin histories (same history on a path differing in one control point) and a pristine-instance one-shot reference"),
+ "c18-7": ("C18", "cached Subpath views (site 1) and Path(Path) inheriting the source's caches (site 2)", "a subpath lookup on the source, then copy/Path(x)/x*M/abs(x), then result.subpath(i) *= M or .reverse(): the source is mutated", "missed at first; caught after adding observer warm-up before the derivation and mutations through subpath views of the result"),
+ "c18-8": ("C18", "Path(shape) adopts freshly built segments (site 1) and Rect caches its rounded outline, returning the stored tuple on a miss (site 2)", "a rounded Rect whose first-ever outline request is Path(x), then an in-place mutation of the result", "missed at first (my snapshots never asked the source what it draws, and the derivation's reference asked it too early); caught after adding cold sources compared with an untouched twin at the end, and deriving before observing"),
+ "c20-7": ("C20", "the writer folds the inverse viewport transform into the node's own matrix in place", "a non-identity viewBox, a shape that keeps its own transform, and a second write of the same tree object", "caught from the start (writing-is-an-observer oracle had just been added)"),
+ "c20-8": ("C20", "a module-level memo of attribute text keyed by value (True == 1 == 1.0)", "a constructor-built Path(d=...) whose values hold pathd_loaded=True is the first 'one' the process formats: every later 1.0 is written 'True'", "missed at first; caught after comparing the text with what a pristine instance of the library writes for the same source, and building paths with the d keyword"),
+}
 def main():
     only = sys.argv[1:]
     table = dict(NEEDS)
     table.update(ROUND2)
+    table.update(ROUND3)
     for sid, (prop, what, needs, history) in sorted(table.items()):
         if only and sid not in only:
             continue
         p, i = sid.split("-")
         src = "/tmp/seed-%s/_out" % p
-        if int(i) > 3:
+        if int(i) > 6:
+            src = "/tmp/seed3-%s/_out" % p
+            i = str(int(i) - 6)
+        elif int(i) > 3:
             src = "/tmp/seed2-%s/_out" % p
             i = str(int(i) - 3)
         d = os.path.join(HERE, "seeded", sid)
